@@ -14,6 +14,8 @@ def parse (t : List String) : Option Op :=
   | ["dsub", s] => some (.dsub (nat! s))
   | ["loan", p, l] => some (.loan (nat! p) (nat! l))
   | ["loans", p, l, _len] => some (.loan (nat! p) (nat! l))   -- slice payload: the length is not part of the model
+  | ["loanf", p, l, _n] => some (.loan (nat! p) (nat! l))     -- flatbuffer payload: a (relocating) grow of the loan is invisible
+  | ["loanf", p, l, _n, _late] => some (.loan (nat! p) (nat! l))
   | ["send", p, l, tag] => some (.send (nat! p) (nat! l) (nat! tag))
   | ["dloan", p, l] => some (.dloan (nat! p) (nat! l))
   | ["recv", s] => some (.recv (nat! s))
@@ -31,14 +33,14 @@ def stepLine (w : Option SWorld) (t : List String) : Option SWorld × String :=
       if ov ≠ "1" ∧ clamp1 (nat! b) < nat! h then (none, "err:service:SubscriberBufferMustBeLargerThanHistorySize") else
       let cfg : Cfg := { maxPubs := clamp1 (nat! mp), maxSubs := clamp1 (nat! ms), bufMax := clamp1 (nat! b),
                          hist := nat! h, borrowMax := clamp1 (nat! r), overflow := ov = "1", expired := nat! e }
-      (some (SWorld.init cfg (variant == "ipc" || variant == "ipc-slice")), "ok")
+      (some (SWorld.init cfg (variant == "ipc" || variant == "ipc-slice" || variant == "ipc-fb")), "ok")
   | ["new", variant, mp, ms, b, h, r, ov, e, pre] =>
       -- service builder: without safe overflow the buffer must hold the whole history
       if ov ≠ "1" ∧ clamp1 (nat! b) < nat! h then (none, "err:service:SubscriberBufferMustBeLargerThanHistorySize") else
       let cfg : Cfg := { maxPubs := clamp1 (nat! mp), maxSubs := clamp1 (nat! ms), bufMax := clamp1 (nat! b),
                          hist := nat! h, borrowMax := clamp1 (nat! r), overflow := ov = "1", expired := nat! e,
                          prealloc := some (nat! pre) }
-      (some (SWorld.init cfg (variant == "ipc" || variant == "ipc-slice")), "ok")
+      (some (SWorld.init cfg (variant == "ipc" || variant == "ipc-slice" || variant == "ipc-fb")), "ok")
   | _ =>
     match w with
     | none => (none, "no-world")
